@@ -597,9 +597,10 @@ class Scanner:
                 self.problems.append(f"{handler}.decorators is not a list literal")
         mdecs = [g for g in (self.guard(self.mods[k[0]], d, key) for d in fn.decorator_list) if g["g"] != "skip"]
         ev = self.events(key, k, fn)
-        return self.finish(route, url, handler, verb, f"{k[0]}.{k[1]}.{fn.name}", cdecs, mdecs, ev)
+        return self.finish(route, url, handler, verb, f"{k[0]}.{k[1]}.{fn.name}", cdecs, mdecs, ev,
+                           isinstance(fn, ast.AsyncFunctionDef))
 
-    def finish(self, route, url, handler, verb, impl, cdecs, mdecs, ev):
+    def finish(self, route, url, handler, verb, impl, cdecs, mdecs, ev, is_async=False):
         has_commit = any(e[0] == "commit" for e in ev)
         first_mut = None
         evidence = []
@@ -623,6 +624,7 @@ class Scanner:
             if route in names or f"{route}:{verb}" in names:
                 kind = kd
         return {"route": route, "url": url, "handler": handler, "method": verb, "impl": impl,
+                "async": bool(is_async),
                 "classDecorators": cdecs, "methodDecorators": mdecs, "bodyGuards": body,
                 "lateCsrf": late, "mutates": mutates, "csrfFirst": csrf_first, "kind": kind,
                 "evidence": evidence[:4]}
